@@ -40,7 +40,8 @@ EOutKinds == [asset : {"A", "B", "N", "T"}, v : 1..2, script : {"std", "unspenda
              \cup [asset : {"A", "B", "N", "T"}, v : {0}, script : {"std", "unspendable", "empty", "big10000", "big10001", "resv50", "resvba"}]
 EOuts == UNION { [1..n -> EOutKinds] : n \in 1..(IF ExplMax > 2 THEN 2 ELSE ExplMax) }
 \* three outputs (thorough): one input, without the second plain asset, to stay below TLC's bound on the size of an enumerated set
-EOuts3 == IF ExplMax > 2 THEN [1..3 -> { k \in EOutKinds : k.asset # "B" }] ELSE {}
+\* (and, for zero values, the three script classes that decide the rule: standard, OP_RETURN, exactly the maximal size)
+EOuts3 == IF ExplMax > 2 THEN [1..3 -> { k \in EOutKinds : k.asset # "B" /\ k.script \in {"std", "unspendable", "big10000"} }] ELSE {}
 EIns1 == { i \in EIns : Len(i) = 1 }
 MkE(ins, outs, isson) ==
   [ins |-> [k \in DOMAIN ins |-> I(ins[k].asset, ins[k].v, "expl", 0, 0)],
